@@ -365,6 +365,10 @@ class Model:
                     lit = p[1].replace('{', '').replace('}', '')
                     txt += lit
                     out += lit
+                elif p[0] == 'b':
+                    # a doubled brace is str.format's escape for a literal brace
+                    txt += p[1] * 2
+                    out += p[1]
                 elif p[0] == 'f':
                     name, spec = p[1], p[2]
                     v = self.vars.get(name)
@@ -843,6 +847,8 @@ class Gen:
                     else:
                         spec = r.choice(('', '04X', '02x', '5', '08b', 'd', '03', '<5', '>6', '^7', '*<4', '0>4', '<4X', '>06x', '*^9b'))
                     parts.append(['f', n, spec])
+                elif r.random() < 0.25:
+                    parts.append(['b', r.choice('{}}')])
                 else:
                     parts.append(['t', self.text(1, 4, 'abc XYZ09.:-')])
             return ['format', r.choice((0, 0, 1, 2)), parts, self.delim()]
